@@ -49,6 +49,87 @@ theorem by_value_sound (p : Policy) (client : Str) (outer : Params) (o : RO) (ps
       have hne : c ≠ client := by simpa using hdec
       rw [hc]; simp [hne]
 
+/-- first value of a parameter name -/
+def getP (ps : Params) (k : Str) : Option Str := (ps.find? (fun kv => kv.1 == k)).map (·.2)
+
+/-- laying the object over the outer parameters: a name the object has takes the object's value -/
+theorem overlay_inner_wins (outer inner : Params) (k v : Str) (h : getP inner k = some v) : getP (overlay outer inner) k = some v := by
+  unfold getP overlay at *
+  rw [List.find?_append]
+  cases hf : inner.find? (fun kv => kv.1 == k) with
+  | none => rw [hf] at h; cases h
+  | some kv => rw [hf] at h; simpa using h
+
+/-- … and a name the object does not have keeps the outer value -/
+theorem overlay_keeps_rest (outer inner : Params) (k : Str) (h : getP inner k = none) : getP (overlay outer inner) k = getP outer k := by
+  unfold getP overlay at *
+  have hin : inner.find? (fun kv => kv.1 == k) = none := by
+    cases hf : inner.find? (fun kv => kv.1 == k) with
+    | none => rfl
+    | some kv => rw [hf] at h; cases h
+  rw [List.find?_append, hin]
+  simp only [Option.none_or]
+  congr 1
+  induction outer with
+  | nil => rfl
+  | cons x xs ih =>
+    simp only [List.filter_cons]
+    by_cases hx : x.1 == k
+    · have hk : x.1 = k := by simpa using hx
+      have hno : inner.any (fun iv => iv.1 == x.1) = false := by
+        rw [hk]
+        rw [List.find?_eq_none] at hin
+        simp only [List.any_eq_false]
+        intro y hy; exact hin y hy
+      simp [hno, hx]
+    · by_cases hany : inner.any (fun iv => iv.1 == x.1)
+      · simp only [hany, Bool.not_true]
+        simp only [List.find?_cons, hx]
+        exact ih
+      · simp only [hany, Bool.not_false, if_true, List.find?_cons, hx]
+        exact ih
+
+/-- **by reference** (after the fix for F-C16-g): whatever the endpoint goes on with, the fetched object was signed by the identified
+    client with an algorithm permitted for that client and names no other issuer — and its parameters lie over the outer ones -/
+theorem by_reference_sound (p : Policy) (client : Str) (outer : Params) (o : RO) (ps : Params)
+    (h : byReference p client outer o = .effective ps) :
+    o.verifies = true ∧ allowedAlg p o.alg = true ∧ (o.iss = none ∨ o.iss = some client) ∧ ps = overlay outer o.params := by
+  unfold byReference at h
+  split at h; · simp at h
+  split at h; · simp at h
+  split at h; · simp at h
+  rename_i h1 h2 h3
+  simp only [Res.effective.injEq] at h
+  refine ⟨by simpa using h1, by simpa using h2, ?_, h.symm⟩
+  cases hc : o.iss with
+  | none => exact Or.inl rfl
+  | some c =>
+    right
+    cases hd : decide (c = client) with
+    | true => have : c = client := by simpa using hd
+              rw [this]
+    | false => exfalso; apply h3; rw [hc]; have hne : c ≠ client := by simpa using hd
+               simp [hne]
+
+/-- a fetched object issued by (hence verified under the keys of) another client is refused -/
+theorem by_reference_other_issuer_refused (p : Policy) (client other : Str) (outer : Params) (o : RO)
+    (hc : o.iss = some other) (hne : other ≠ client) : byReference p client outer o = .refused := by
+  unfold byReference
+  split; · rfl
+  split; · rfl
+  split; · rfl
+  rename_i _ _ h3
+  exfalso; apply h3; rw [hc]; simp [hne]
+
+/-- **the full statement fails by reference** (known finding F-C16-h): the property wants a request object that names a different client
+    refused; the code — and therefore the model — lets a correctly signed fetched object naming ANOTHER client take effect, and the
+    request goes on as that client. `by_reference_sound` is what remains provable. -/
+theorem by_reference_other_client_takes_effect :
+    ∃ (p : Policy) (client other : Str) (o : RO) (ps : Params), other ≠ client ∧ o.clientId = some other ∧
+      byReference p client [] o = .effective ps ∧ getP ps [99] = some other := by
+  refine ⟨{ registeredAlg := some "RS256", providerAlgs := [] }, [97], [98],
+    { verifies := true, alg := "RS256", clientId := some [98], iss := some [97], params := [([99], [98])] }, [([99], [98])], by decide, rfl, by simp [byReference, allowedAlg, overlay], by decide⟩
+
 /-- an unsigned object is refused when the client registered a signing algorithm -/
 theorem unsigned_refused_when_alg_registered (p : Policy) (client : Str) (outer : Params) (o : RO) (a : String)
     (hreg : p.registeredAlg = some a) (ha : a ≠ "none") (hnone : o.alg = "none") :
